@@ -3,7 +3,7 @@ import Nstd.Sync.Scenario
 /-
   Line protocol of the Sync area (same lines as harness/sync.cpp):
     reset
-    scen <prim> <init> <sec> <nsec> <quantum_ns> <spur> <eintr> T:<ret>:<op>,<op>,... T:...    -> ok <threads>
+    scen <prim> <init> <sec> <nsec> <quantum_ns> <spur> <eintr> [F:<create failures>] T:<ret>:<op>,<op>,... T:...    -> ok <threads>
     run <t.a>,<t.a>,... | run - | rrun <seed> <prefix>       -> init:<events> <t.a>/<candidates>:<events> ... | <verdict>
 -/
 open Nstd.Common
@@ -30,6 +30,7 @@ def parseOp (prim : String) (s : String) : Option SOp :=
     | "start", some a => a.toNat?.bind fun j => if j > 0 ∧ j < 8 then some (.start j) else none
     -- the member-function overload of Thread::start (Thread.hpp) forwards to start(proc, param): same model step
     | "mstart", some a => a.toNat?.bind fun j => if j > 0 ∧ j < 8 then some (.start j) else none
+    | "dtor", some a => a.toNat?.bind fun j => if j > 0 ∧ j < 8 then some (.dtor j) else none
     | "join", some a => a.toNat?.bind fun j => if j > 0 ∧ j < 8 then some (.join j) else none
     | _, _ => none
   op.bind fun o => if opValid prim o then some o else none
@@ -42,7 +43,7 @@ def parseProg (prim : String) (tok : String) : Option (Nat × Array SOp) :=
     if l.length > 64 then none else pure (ret, l.toArray)
   | _ => none
 
-def mkWorld (prim : String) (init sec nsec quantum spur eintr : Nat) (progs : Array (Nat × Array SOp)) : Option World :=
+def mkWorld (prim : String) (init sec nsec quantum spur eintr cfail : Nat) (progs : Array (Nat × Array SOp)) : Option World :=
   let now := sec * 1000000000 + nsec
   let p : Option PrimSt :=
     if prim == "mtx" then some (.mtx Mutex.init)
@@ -51,11 +52,16 @@ def mkWorld (prim : String) (init sec nsec quantum spur eintr : Nat) (progs : Ar
     else if prim == "mon" then some (.mon (Monitor.init now spur))
     else if prim == "thr" then some .thr
     else none
-  p.map fun p => { prim := p, thr := Thr.init, progs := progs, pos := Array.replicate progs.size 0, quantum := quantum }
+  p.map fun p => { prim := p, thr := Thr.init cfail, progs := progs, pos := Array.replicate progs.size 0, quantum := quantum }
 
 def parseScen (ws : List String) : Option World :=
   match ws with
-  | "scen" :: prim :: init :: sec :: nsec :: q :: spur :: eintr :: progs => do
+  | "scen" :: prim :: init :: sec :: nsec :: q :: spur :: eintr :: rest => do
+    -- optional `F:<n>`: pthread_create may fail n times
+    let (cfail, progs) ← match rest with
+      | opt :: more =>
+        if opt.startsWith "F:" then (opt.drop 2).toString.toNat?.map fun n => (n, more) else some (0, rest)
+      | [] => some (0, rest)
     let init ← init.toNat?
     let sec ← sec.toNat?
     let nsec ← nsec.toNat?
@@ -65,9 +71,9 @@ def parseScen (ws : List String) : Option World :=
     if nsec ≥ 1000000000 ∨ q = 0 ∨ progs.isEmpty ∨ progs.length > 8 then none
     let ps ← progs.mapM (parseProg prim)
     let ok := ps.all fun (_, ops) => ops.all fun o =>
-      match o with | .start j | .join j => j < ps.length | _ => true
+      match o with | .start j | .join j | .dtor j => j < ps.length | _ => true
     if !ok then none
-    mkWorld prim init sec nsec q spur eintr ps.toArray
+    mkWorld prim init sec nsec q spur eintr cfail ps.toArray
   | _ => none
 
 def parseChoice (s : String) : Option (Nat × Nat) :=
